@@ -135,10 +135,10 @@ func (g *G) columnDef(inCreate bool) {
 	case 6:
 		g.pkw("AUTO_INCREMENT")
 	}
-	if g.pick("column.hidden", 5) == 4 {
+	if g.pick("column.hidden", 3) == 2 {
 		g.pkw("HIDDEN")
 	}
-	if inCreate && g.pick("column.primarykey", 5) == 4 {
+	if inCreate && g.pick("column.primarykey", 3) == 2 {
 		g.pkw("PRIMARY", "KEY")
 	}
 	if g.pick("column.options", 5) == 4 {
